@@ -142,4 +142,7 @@ Definition c15_monitor (c : crash_case) : bool :=
   (* what is sent again is sent with the same parameters; and a restart sends exactly the stored message *)
   && resends_equal (sent_msgs es)
   && forallb (fun s => negb (is_recover_input (os_input s)) ||
-                       trace_okb c15_resend_guard (m_data (os_pre s)) (os_effects s)) (sc_steps (fst c)).
+                       (trace_okb c15_resend_guard (m_data (os_pre s)) (os_effects s)
+                        (* and a restart re-creates / re-broadcasts / pays only what the stored record does not have yet *)
+                        && trace_okb c15_broadcast_guard (m_data (os_pre s)) (os_effects s)
+                        && trace_okb c15_invoice_guard (m_data (os_pre s)) (os_effects s))) (sc_steps (fst c)).
